@@ -452,6 +452,11 @@ def history(ctx, rng, steps):
                 ("clear", lambda: l.tree.clear()), ("update", lambda: l.tree.update({k: 1})), ("setdefault", lambda: l.tree.setdefault(universe[-1] if universe[-1] not in l.model else k, 1)),
                 ("popitem", lambda: l.tree.popitem()), ("delete_key", lambda: l.tree.delete_key(next(iter(l.model), k)))] if l.kind == "dict" else \
                [("add", lambda: l.tree.add(k)), ("discard", lambda: l.tree.discard(next(iter(l.model), k))), ("clear", lambda: l.tree.clear()), ("delete_key", lambda: l.tree.delete_key(next(iter(l.model), k)))]
+        # the element-level spellings of the same operations
+        if l.model:
+            some = next(iter(l.model))
+            muts.append(("delete_exact", lambda: l.tree.delete_exact(l.tree.get_element(some))))
+            muts.append(("insert_element", lambda: l.tree.insert_element(l.tree.get_element(some))))
         before = items_of(l)
         for nm, fn in muts:
             if nm in ("popitem", "clear", "delitem", "pop", "discard", "delete_key") and not l.model:
